@@ -1,6 +1,269 @@
-//! C20: not implemented yet.
+//! C20: redaction.
+//!
+//! A case builds an ingredient chain L0 <- L1 <- .. (each level a signed manifest with custom, redactable assertions
+//! `com.verif.a<level>_<i>`, plus one labelled `com.verif.shared` at every level (index 9), whose payloads are unique
+//! marker strings), then one more manifest on top that redacts, and
+//! reads the result back:
+//!   {"fmt": "jpeg"|"png",
+//!    "levels": [n0, n1, ...],                 // custom assertions per chain level (depth = levels.len(), 1..3)
+//!    "top": {"intent": "edit"|"update",
+//!            "redact": [target, ...],          // ManifestDefinition.redactions (+ one c2pa.redacted action each)
+//!            "craft": null | {                 // claim taken from the Builder, altered, then signed:
+//!                "unlisted": [target, ...],    //   removed from the ingredient's store with no redaction entry
+//!                "list": null | [target, ...]} //   the claim's redacted_assertions replaced by exactly this list
+//!           },
+//!    "post": [[level, i], ...]}               // after signing: payload bytes overwritten in place in the output asset
+//! target = {"m": level | "self" | "none", "a": assertion label}
+//! out: sign result; per manifest (chain order, top last): custom assertion labels present, redaction list (as
+//! [m, label] pairs); state and failure codes (active manifest and ingredients); for every marker whether its bytes occur
+//! in the output asset; the same before `post` is applied.
+use std::{cell::RefCell, collections::HashMap, io::Cursor, sync::Arc};
+
+use c2pa::{verif_hooks::c20::to_assertion_uri, Builder, BuilderIntent, Context, Reader};
 use serde_json::{json, Value};
 
-pub fn run(_case: &Value) -> Value {
-    json!({"r": "unimplemented"})
+use crate::{e2e, util::*};
+
+thread_local! {
+    static CTX: Arc<Context> = Arc::new(e2e::context(None));
+    static CTX_NOVERIFY: Arc<Context> = Arc::new(e2e::context(Some(r#"{"verify": {"verify_after_sign": false}}"#)));
+    static NONCE: RefCell<u64> = const { RefCell::new(0) };
+    #[allow(clippy::type_complexity)]
+    static CHAINS: RefCell<HashMap<String, (Vec<u8>, Vec<String>, String, Value)>> = RefCell::new(HashMap::new());
+}
+
+fn format_of(fmt: &str) -> (&'static str, &'static str) {
+    match fmt {
+        "png" => ("image/png", "libpng-test.png"),
+        _ => ("image/jpeg", "no_manifest.jpg"),
+    }
+}
+
+pub fn marker(nonce: &str, level: usize, i: usize) -> String {
+    format!("VERIF-SECRET-{nonce}-L{level}-I{i}-PAYLOAD")
+}
+
+/// index of the assertion that carries the same label at every level
+pub const SHARED: usize = 9;
+
+fn custom_assertions(nonce: &str, level: usize, n: usize) -> Vec<Value> {
+    let mut v: Vec<Value> = (0..n).map(|i| json!({"label": format!("com.verif.a{level}_{i}"), "data": {"secret": marker(nonce, level, i)}})).collect();
+    v.push(json!({"label": "com.verif.shared", "data": {"secret": marker(nonce, level, SHARED)}}));
+    v
+}
+
+fn level_label(nonce: &str, level: usize) -> String {
+    let h = nonce.bytes().fold(0xcbf29ce484222325u64, |a, b| (a ^ b as u64).wrapping_mul(0x100000001b3));
+    format!("urn:c2pa:{:08x}-{:04x}-4000-8000-{:012x}", (h >> 32) as u32, level, h & 0xffff_ffff_ffff)
+}
+
+fn sign_level(format: &str, prev: &[u8], nonce: &str, level: usize, n: usize) -> c2pa::Result<Vec<u8>> {
+    let ctx = CTX.with(|c| c.clone());
+    let mut assertions = custom_assertions(nonce, level, n);
+    if level == 0 {
+        assertions.push(json!({"label": "c2pa.actions", "data": {"actions": [{"action": "c2pa.created",
+            "digitalSourceType": "http://cv.iptc.org/newscodes/digitalsourcetype/digitalCapture"}]}}));
+    }
+    let def = json!({"title": format!("level {level}"), "label": level_label(nonce, level), "claim_generator_info": [{"name": "verif-harness", "version": "0.1"}],
+                     "assertions": assertions})
+    .to_string();
+    let mut b = Builder::from_shared_context(&ctx).with_definition(def)?;
+    if level > 0 {
+        b.set_intent(BuilderIntent::Edit);
+    }
+    let signer = e2e::signer("ed25519");
+    let mut src = Cursor::new(prev.to_vec());
+    let mut dst = Cursor::new(Vec::new());
+    b.sign(signer.as_ref(), format, &mut src, &mut dst)?;
+    Ok(dst.into_inner())
+}
+
+fn active_label(format: &str, bytes: &[u8]) -> String {
+    let ctx = CTX.with(|c| c.clone());
+    match Reader::from_shared_context(&ctx).with_stream(format, Cursor::new(bytes.to_vec())) {
+        Ok(r) => r.active_label().unwrap_or("").to_string(),
+        Err(_) => String::new(),
+    }
+}
+
+fn uri_of(t: &Value, labels: &[String], own: &str) -> String {
+    let a = t["a"].as_str().unwrap_or("");
+    let m = match &t["m"] {
+        Value::Number(n) => labels.get(n.as_u64().unwrap_or(0) as usize).cloned().unwrap_or_default(),
+        Value::String(s) if s == "self" => own.to_string(),
+        _ => "urn:c2pa:00000000-0000-4000-8000-000000000000".to_string(),
+    };
+    to_assertion_uri(&m, a)
+}
+
+/// [m, label]: index of the manifest a URI names (-1 unknown, top = labels.len()-1) and its last path segment
+fn canon_uri(u: &str, labels: &[String]) -> Value {
+    let m = labels.iter().position(|l| u.contains(&format!("/{l}/"))).map(|i| i as i64).unwrap_or(-1);
+    json!([m, u.rsplit('/').next().unwrap_or("")])
+}
+
+fn read_back(format: &str, bytes: &[u8], labels: &[String], nonce: &str, levels: &[usize]) -> Value {
+    let ctx = CTX.with(|c| c.clone());
+    let found: Vec<Value> = levels
+        .iter()
+        .enumerate()
+        .flat_map(|(l, n)| (0..*n).chain(std::iter::once(SHARED)).map(move |i| (l, i)))
+        .map(|(l, i)| {
+            let m = marker(nonce, l, i);
+            json!([l, i, bytes.windows(m.len()).any(|w| w == m.as_bytes())])
+        })
+        .collect();
+    match Reader::from_shared_context(&ctx).with_stream(format, Cursor::new(bytes.to_vec())) {
+        Ok(r) => {
+            let rep = e2e::report(&r);
+            let js: Value = serde_json::from_str(&r.json()).unwrap_or(Value::Null);
+            let mut manifests = vec![];
+            for l in labels {
+                let m = &js["manifests"][l];
+                if m.is_null() {
+                    manifests.push(Value::Null);
+                    continue;
+                }
+                let mut present: Vec<String> = m["assertions"]
+                    .as_array()
+                    .map(|a| a.iter().filter_map(|x| x["label"].as_str()).filter(|s| s.starts_with("com.verif.")).map(|s| s.to_string()).collect())
+                    .unwrap_or_default();
+                present.sort();
+                // payloads reported for the custom assertions
+                let leaked: Vec<String> = m["assertions"]
+                    .as_array()
+                    .map(|a| a.iter().filter_map(|x| x["data"]["secret"].as_str()).map(|s| s.to_string()).collect())
+                    .unwrap_or_default();
+                let reds: Vec<Value> = m["redactions"].as_array().map(|a| a.iter().map(|u| canon_uri(u.as_str().unwrap_or(""), labels)).collect()).unwrap_or_default();
+                manifests.push(json!({"present": present, "secrets": leaked, "redactions": reds,
+                                      "n_ingredients": m["ingredients"].as_array().map(|a| a.len()).unwrap_or(0)}));
+            }
+            let ing_fail: Vec<Value> = rep["deltas"].as_array().map(|a| a.iter().map(|d| d["failure"].clone()).collect()).unwrap_or_default();
+            json!({"r": "ok", "state": rep["state"], "failure": rep["failure"], "ing_failure": ing_fail, "manifests": manifests,
+                   "found": found, "active": labels.iter().position(|l| Some(l.as_str()) == r.active_label()).map(|i| i as i64).unwrap_or(-1)})
+        }
+        Err(e) => json!({"r": "err", "kind": err_class(&e), "found": found}),
+    }
+}
+
+fn sign_top(format: &str, prev: &[u8], top: &Value, labels: &[String], own_label: &str) -> c2pa::Result<Vec<u8>> {
+    let craft = !top["craft"].is_null();
+    let ctx = if craft { CTX_NOVERIFY.with(|c| c.clone()) } else { CTX.with(|c| c.clone()) };
+    let empty = vec![];
+    let redact: Vec<String> = top["redact"].as_array().unwrap_or(&empty).iter().map(|t| uri_of(t, labels, own_label)).collect();
+    let acts: Vec<Value> = redact
+        .iter()
+        .map(|u| json!({"action": "c2pa.redacted", "reason": "c2pa.PII.present", "parameters": {"redacted": u}}))
+        .collect();
+    let mut def = json!({"title": "top", "label": own_label, "claim_generator_info": [{"name": "verif-harness", "version": "0.1"}],
+                         "assertions": [{"label": "com.verif.top", "data": {"note": "top"}}]});
+    if !acts.is_empty() {
+        def["assertions"].as_array_mut().expect("arr").push(json!({"label": "c2pa.actions", "data": {"actions": acts}}));
+    }
+    if !top["redact"].is_null() {
+        def["redactions"] = json!(redact);
+    }
+    let mut b = Builder::from_shared_context(&ctx).with_definition(def.to_string())?;
+    b.set_intent(if top["intent"].as_str().unwrap_or("edit") == "update" { BuilderIntent::Update } else { BuilderIntent::Edit });
+    let signer = e2e::signer("ed25519");
+    let mut src = Cursor::new(prev.to_vec());
+    let mut dst = Cursor::new(Vec::new());
+    if !craft {
+        b.sign(signer.as_ref(), format, &mut src, &mut dst)?;
+        return Ok(dst.into_inner());
+    }
+    let mut claim = b.verif_c21_prepare_claim(format, &mut src)?;
+    let own = claim.label().to_string();
+    for t in top["craft"]["unlisted"].as_array().unwrap_or(&empty) {
+        let u = uri_of(t, labels, &own);
+        let m = match &t["m"] {
+            Value::Number(n) => labels.get(n.as_u64().unwrap_or(0) as usize).cloned().unwrap_or_default(),
+            _ => String::new(),
+        };
+        match claim.claim_ingredient_mut(&m) {
+            Some(ing) => ing.verif_c20_redact_assertion(&u)?,
+            None => return Err(c2pa::Error::NotFound),
+        }
+    }
+    if let Some(list) = top["craft"]["list"].as_array() {
+        let l: Vec<String> = list.iter().map(|t| uri_of(t, labels, &own)).collect();
+        claim.verif_c20_set_redactions(if l.is_empty() { None } else { Some(l) });
+    }
+    b.verif_c21_sign_claim(claim, None, signer.as_ref(), format, &mut src, &mut dst)?;
+    Ok(dst.into_inner())
+}
+
+pub fn run(case: &Value) -> Value {
+    if case["op"].as_str() == Some("facts") {
+        let (a, h) = c2pa::verif_hooks::c20::non_redactable_substrings();
+        return json!({"r": "ok", "actions": a, "hashes": h});
+    }
+    let fmt = case["fmt"].as_str().unwrap_or("jpeg");
+    let (format, fx) = format_of(fmt);
+    let nonce = NONCE.with(|n| {
+        *n.borrow_mut() += 1;
+        format!("{:x}-{}", std::process::id(), n.borrow())
+    });
+    let levels: Vec<usize> = case["levels"].as_array().map(|a| a.iter().map(|x| x.as_u64().unwrap_or(0) as usize).collect()).unwrap_or_else(|| vec![1]);
+    // the chain below the redacting manifest is built once per (format, layout) and process
+    let key = format!("{fmt}:{levels:?}");
+    let cached = CHAINS.with(|m| m.borrow().get(&key).cloned());
+    let (asset, labels_chain, nonce, before) = match cached {
+        Some(t) => t,
+        None => {
+            let mut asset = e2e::fixture(fx);
+            let mut labels = vec![];
+            for (l, n) in levels.iter().enumerate() {
+                asset = match sign_level(format, &asset, &nonce, l, *n) {
+                    Ok(a) => a,
+                    Err(e) => return json!({"r": "chain-sign-failed", "level": l, "kind": err_class(&e)}),
+                };
+                labels.push(level_label(&nonce, l));
+            }
+            let before = read_back(format, &asset, &labels, &nonce, &levels);
+            if active_label(format, &asset) != *labels.last().expect("labels") {
+                return json!({"r": "chain-sign-failed", "level": levels.len(), "kind": "label-not-kept"});
+            }
+            let t = (asset, labels, nonce.clone(), before);
+            CHAINS.with(|m| m.borrow_mut().insert(key, t.clone()));
+            t
+        }
+    };
+    let mut labels = labels_chain;
+    // the top manifest gets a label chosen up front so that a case can name it ("self")
+    let own_label = format!("urn:c2pa:{:08x}-0000-4000-8000-{:012x}", std::process::id(), NONCE.with(|n| *n.borrow()));
+    let top = &case["top"];
+    let signed = sign_top(format, &asset, top, &labels, &own_label);
+    let mut out = match signed {
+        Ok(a) => a,
+        Err(e) => {
+            return json!({"r": "sign-refused", "kind": err_class(&e), "before": {"state": before["state"], "found": before["found"]}});
+        }
+    };
+    labels.push(own_label.clone());
+    let mut posted = vec![];
+    let empty = vec![];
+    for p in case["post"].as_array().unwrap_or(&empty) {
+        let m = marker(&nonce, p[0].as_u64().unwrap_or(0) as usize, p[1].as_u64().unwrap_or(0) as usize);
+        let mut hits = 0;
+        let mut i = 0;
+        while i + m.len() <= out.len() {
+            if &out[i..i + m.len()] == m.as_bytes() {
+                for b in &mut out[i..i + m.len()] {
+                    *b = b'x';
+                }
+                hits += 1;
+                i += m.len();
+            } else {
+                i += 1;
+            }
+        }
+        posted.push(hits);
+    }
+    if let Some(p) = case["dump"].as_str() {
+        std::fs::write(p, &out).ok();
+    }
+    let after = read_back(format, &out, &labels, &nonce, &levels);
+    json!({"r": "ok", "posted": posted,
+           "before": {"state": before["state"], "found": before["found"]}, "after": after})
 }
